@@ -1431,7 +1431,12 @@ impl Parser {
                             }
                         }
                         self.expect(&TokenEnum::RightBrace)?;
-                        fields.sort_by(|(f1, _), (f2, _)| f1.cmp(f2));
+                        if only_literal_children {
+                            // (a literal value has its fields in a canonical order)
+                            fields.sort_by(|(f1, _), (f2, _)| f1.cmp(f2));
+                        }
+                        // the fields of an expression are evaluated in the order in which they are
+                        // written, so that order is kept:
                         Expr::untyped(ExprEnum::StructLiteral(identifier, fields), meta)
                     } else {
                         self.push_error(ParseErrorEnum::InvalidLiteral, meta);
